@@ -101,6 +101,36 @@ func VerifBootReal(h EventHandler, lfd int, opts *Options) (*VerifWorld, error) 
 	return &VerifWorld{el: eng.el, eng: eng}, nil
 }
 
+// Options returns the options the engine runs with (after Run's defaulting).
+func (v *VerifWorld) Options() *Options { return v.eng.opts }
+
+// verifListenFd is the simulated listening socket that the rewritten Run() receives instead of creating one.
+var verifListenFd int
+
+func verifInitListener(network, addr string, o *Options) (*listener, error) {
+	return &listener{fd: verifListenFd, addr: &net.TCPAddr{IP: net.IPv4(127, 0, 0, 1), Port: 9736}}, nil
+}
+
+// VerifBootRun starts the proxy through the REAL Run(): option defaulting (size limit, connections per node, connect
+// timeout, buffer sizes), then the real serve() as in VerifBootReal. opts holds exactly what the configuration file says.
+func VerifBootRun(h EventHandler, lfd int, opts *Options) (*VerifWorld, error) {
+	VerifReset()
+	allEngines.Delete("tcp://verif")
+	verifListenFd = lfd
+	if err := Run(h, "tcp://verif", func(o *Options) { *o = *opts }); err != nil {
+		return nil, err
+	}
+	v, ok := allEngines.Load("tcp://verif")
+	if !ok {
+		return nil, errors.New("Run() returned without registering an engine")
+	}
+	eng := v.(*engine)
+	if eng.el == nil {
+		return nil, errors.New("Run() returned without an event loop")
+	}
+	return &VerifWorld{el: eng.el, eng: eng}, nil
+}
+
 // VerifBoot mirrors serve() + engine.start() without statsLoop / loopClusterNodes / preconnect,
 // then injects the initial topology through the real updateClusterNodes + ticker().
 func VerifBoot(h EventHandler, lfd int, opts *Options, nodesText string, info VerifInfoFn) (*VerifWorld, error) {
